@@ -27,7 +27,9 @@ def pick_names(rng, n, taken):
     pool = [x for x in PLAIN_NAMES if x not in taken]
     rng.shuffle(pool)
     for i in range(n):
-        names.append(pool.pop())
+        nm = pool.pop()
+        names.append(nm)
+        pool = [x for x in pool if x != nm]   # the pool is weighted (repeated entries)
     return names
 
 
